@@ -317,3 +317,52 @@ pub mod rng {
 
     impl TryCryptoRng for KeyRng {}
 }
+
+pub mod rt {
+    //! Stand-in for the `tokio` path inside `passage::start`: everything is tokio's own, except that
+    //! `signal::ctrl_c()` waits for a simulated interrupt of this thread instead of a process signal.
+    pub use ::tokio::*;
+
+    pub mod signal {
+        use std::cell::RefCell;
+        use std::future::poll_fn;
+        use std::task::{Poll, Waker};
+
+        thread_local! {
+            static INTERRUPT: RefCell<(bool, Vec<Waker>)> = const { RefCell::new((false, Vec::new())) };
+        }
+
+        /// Completes once `raise()` was called on this thread.
+        pub async fn ctrl_c() -> std::io::Result<()> {
+            poll_fn(|cx| {
+                INTERRUPT.with(|i| {
+                    let mut i = i.borrow_mut();
+                    if i.0 {
+                        Poll::Ready(Ok(()))
+                    } else {
+                        i.1.push(cx.waker().clone());
+                        Poll::Pending
+                    }
+                })
+            })
+            .await
+        }
+
+        /// Delivers the simulated interrupt to this thread.
+        pub fn raise() {
+            let wakers = INTERRUPT.with(|i| {
+                let mut i = i.borrow_mut();
+                i.0 = true;
+                std::mem::take(&mut i.1)
+            });
+            for w in wakers {
+                w.wake();
+            }
+        }
+
+        /// Forgets a delivered interrupt (between runs).
+        pub fn reset() {
+            INTERRUPT.with(|i| *i.borrow_mut() = (false, Vec::new()));
+        }
+    }
+}
